@@ -1,7 +1,7 @@
 (* C04: decoding a Hello yields the attributes the platform supplied; Linux getters.
    Statements only: each theorem restates the full type of a lemma proved in coq/proofs and is closed by
    `exact`; Print Assumptions beneath.  Regenerate with bin/genprops.py after a lemma changes. *)
-From LLTD Require Import BlockFun SpecTx TxProofs.
+From LLTD Require Import BlockFun SpecTx TxProofs BufferLevel.
 
 Theorem C04_hello_decodes_to_attributes :
   forall (c : pcfg) (g : gcfg),
@@ -55,3 +55,37 @@ Theorem C04_linux_platform_layer :
   In (Sys.linux_flags i) [0%N; 2048%N; 8192%N; 10240%N].
 Proof. exact C04_linux. Qed.
 Print Assumptions C04_linux_platform_layer.
+
+Theorem C04_on_the_buffer_level_model :
+  forall (junk ctx : N) (c : pcfg) (g : gcfg) (mtu : N) (r : registry) (buf : list N)
+  (w : world) (bl : nat) (bb : N) (h : hdr),
+  c_mtu c = Some mtu ->
+  (576 <= mtu)%N ->
+  (mtu <= 9216)%N ->
+  (mtu <= c_rxsize c)%N ->
+  length buf = o (c_rxsize c) ->
+  BlockSafe.ledger_reg bl bb r w ->
+  cfg_wf c g ->
+  parse_hdr buf = Some h ->
+  PropsMapper.is_discover h = true ->
+  matches (SystemRefinement.reg_state r ctx) h = true ->
+  exists (r' : registry) (w' : world) (fr : list N) (hf : hello_rec),
+  parse_frame no_fail no_fail junk ctx c g r buf w = Ok r' w' /\
+  w_trace w' =
+  Send ctx true fr :: (if (h_tos h =? tos_discovery)%N then [Sleep 10] else []) ++ w_trace w /\
+  BlockSafe.ledger_reg bl bb r' w' /\
+  hello_fields fr = Some hf /\
+  decode_attrs (hf_props hf) = attrs_of c g /\
+  hf_edst hf = [255%N; 255%N; 255%N; 255%N; 255%N; 255%N] /\
+  hf_rdst hf = [255%N; 255%N; 255%N; 255%N; 255%N; 255%N] /\
+  hf_esrc hf = mac_bytes (own c) /\
+  hf_rsrc hf = mac_bytes (own c) /\
+  hf_seq hf = 0%N /\
+  hf_gen hf = (h_w0 h mod 65536)%N /\
+  hf_cur hf = mac_bytes (h_rsrc h) /\
+  hf_app hf = mac_bytes (h_esrc h) /\
+  hf_tos hf = h_tos h /\
+  (forall t : N, In t [4%N; 6%N; 9%N; 13%N] -> In t (map fst (hf_props hf)) <-> c_wifi c <> None) /\
+  (In 5%N (map fst (hf_props hf)) <-> c_wifi c <> None /\ c_bssid c <> None).
+Proof. exact C04_buffer_level. Qed.
+Print Assumptions C04_on_the_buffer_level_model.
